@@ -663,7 +663,8 @@ Definition real_run : R (N * bool * net * (bytes * net)) :=
             else if (after =? 2) || (after =? 4) then net_init [] [Refused] []
             else if tcp then net_init [] [Stream (hd [] replies) (negb (after =? 1))] []
             else if after =? 3 then net_init [Datagram payload] [] []
-            else net_init (map Datagram replies) [] [] in
+            else (* an empty reply stands for a request that gets no answer *)
+                 net_init (map (fun r : bytes => match r with [] => Timeout | _ => Datagram r end) replies) [] [] in
   match ts with
   | Ok t =>
       let res : bytes * net :=
@@ -697,7 +698,8 @@ Definition case_real : R bytes :=
   ret (res ++ str "|" ++ saw).
 Definition case_spec_real : R bytes :=
   let* '(kind, tcp, n0, (res, n)) := real_run in
-  let consumed := lenN (n_udp n0) - lenN (n_udp n) in
+  let dgrams (l : list udp_event) := lenN (filter (fun e => match e with Datagram _ => true | _ => false end) l) in
+  let consumed := dgrams (n_udp n0) - dgrams (n_udp n) in
   let answered := if tcp then (match n_cur n with Some (_, false) => 1 | _ => 0 end) else consumed in
   (* HTTP: one request, so at most one read waits for the whole timeout unless the connection is refused or closed *)
   let http_waits := match n_tcp n0 with Stream _ true :: _ => 1 | _ => 0 end in
